@@ -258,6 +258,9 @@ def gen_case(seed, tier):
     unbounded = batched and r.random() < 0.3 and kind not in ('sized',
                                                               'rewind')
     case['collection'] = core.stream(seed, 'c12coll').random() < 0.5
+    case['ifwrap'] = (case['src'] == 'name' and kind in (
+        'gen', 'genfunc', 'iter', 'rewind', 'iterable') and
+        core.stream(seed, 'c12ifwrap').random() < 0.2)
     if batched and r.random() < 0.06:
         case['items'] = 'sparse'
         if r.random() < 0.8:
@@ -390,7 +393,13 @@ def source_of(case):
     src = '<dtml-in %s>%s' % (' '.join(a), body)
     if case['else']:
         src += '<dtml-else>EMPTY'
-    return src + '</dtml-in>'
+    src += '</dtml-in>'
+    if case.get('ifwrap'):
+        # the usual "only if there is something to show" wrapper: testing
+        # an iterator for truth pulls nothing, and the loop inside gets the
+        # very object the test saw
+        src = '<dtml-if seq>%s</dtml-if>' % src
+    return src
 
 
 def bound_of(case, displayed_last):
